@@ -53,12 +53,17 @@ def run_job(job):
         return orig_mv(mol, V, w, ea_ei, Cocc, Cvirt, makeB)
 
     rb.matrix_vector_product_batched = mv
+    import seqm.seqm_functions.rpa as rpamod
+
+    rpamod.matrix_vector_product_batched = mv
     exc = {"n_states": int(job["nroots"]), "method": job["method"], "tolerance": job["tol"]}
     if job.get("max_iter"):
         exc["max_iter"] = int(job["max_iter"])
     params = mdlib.seqm_params(scf_eps=job["tol"] * 1e-2, scf_converger=[1], excited_states=exc)
     out = {"id": job["id"]}
     try:
+        scf_driver.MOLS.setdefault("h2co_d", ([8, 6, 1, 1], [[-0.02, 0.03, 0.05], [1.24, -0.02, -0.03], [1.60, 0.99, 0.10], [1.86, -0.80, -0.12]], 0, 1))
+        scf_driver.MOLS.setdefault("h2o_d", ([8, 1, 1], [[0.02, 0.00, 0.01], [1.02, 0.03, 0.00], [-0.30, 0.88, 0.05]], 0, 1))
         mol = scf_driver.make(job["mols"], params, displace=0.05)
         mol.verbose = False
         es = Electronic_Structure(params)
@@ -90,6 +95,26 @@ def run_job(job):
                     out["dense_lowest"] = ev[:, : E.shape[1]].tolist()
                     res = torch.einsum("bro,bpo->brp", amp, A) - E.unsqueeze(2) * amp
                     out["residual"] = float(res.abs().max())
+        if job["method"] == "rpa" and amp.dim() == 4 and "args" in captured:
+            # dense reference with the code's own sigma routine (returns A V and B V)
+            captured["locked"] = True
+            m_, w, ea_ei, Cocc, Cvirt = captured["args"]
+            X, Y = amp[0], amp[1]
+            nov = X.shape[2]
+            if nov <= 40:
+                eye = torch.eye(nov, dtype=X.dtype).unsqueeze(0).expand(X.shape[0], nov, nov).contiguous()
+                Ap, Bp = orig_mv(m_, eye, w, ea_ei, Cocc, Cvirt, True)
+                Mp = (Ap + Bp).transpose(1, 2)
+                Mm = (Ap - Bp).transpose(1, 2)
+                w2 = torch.linalg.eigvals(Mm @ Mp)
+                out["dense_imag"] = float(w2.imag.abs().max())
+                w2 = torch.sort(w2.real, dim=1).values
+                out["dense_lowest"] = torch.sqrt(w2.clamp(min=0.0))[:, : E.shape[1]].tolist()
+                r1 = torch.einsum("bpo,bro->brp", Mp, X + Y) - E.unsqueeze(2) * (X - Y)
+                r2 = torch.einsum("bpo,bro->brp", Mm, X - Y) - E.unsqueeze(2) * (X + Y)
+                out["residual"] = float(max(r1.abs().max(), r2.abs().max()))
+                nrm = (X * X).sum(-1) - (Y * Y).sum(-1)
+                out["rpa_norm_dev"] = float((nrm - 1.0).abs().max())
     except Exception as ex:  # noqa
         out["outcome"] = "raised"
         out["error"] = f"{type(ex).__name__}: {str(ex)[:300]}"
